@@ -13,6 +13,10 @@ attempts (strengthening round 5):
 * `internal/dsn/dsn.go: RecipientInfo.WriteTo` — the `Status:` and `Diagnostic-Code:` fields, and
   `writeHumanReadablePart` ("failed with error: SMTP error <code>: <text>").
 
+Round 9: the loop over ALL recipients of the message in one attempt (`attemptLoop`: `meta.To`,
+`newRcpts`, `failedRcpts`, the maps `TriesCount` / `RcptErrs`), one report for the recipients given up
+in that attempt (`attemptAll`), the attempts of a message with several recipients (`runMulti`).
+
 Between two attempts the state lives in the `.meta` file only (`Meta: nil` in the re-queued slot), so a
 restart between attempts is invisible: the model has no restart step, the harness plays restarts and
 compares with the same model run.  Core Lean only (linked into the driver).
@@ -102,5 +106,70 @@ def runHist (maxTries : Nat) (utf8 : Bool) : RcptState → List (Option Err) →
 report at all when one of them cannot be written. -/
 def reportLines (utf8 : Bool) (rs : List Reply) : Option (List ReportLine) :=
   rs.mapM (reportLine utf8)
+
+/-! ### one attempt for SEVERAL recipients (round 9): the loop over `meta.To` in `tryDelivery` -/
+
+/-- `QueueMetadata.TriesCount` / `RcptErrs`: maps keyed by the recipient (a number here) -/
+structure AttMeta where
+  tries  : Nat → Nat
+  stored : Nat → Option Reply
+
+def AttMeta.init : AttMeta := ⟨fun _ => 0, fun _ => none⟩
+
+def AttMeta.get (m : AttMeta) (r : Nat) : RcptState := ⟨m.tries r, m.stored r⟩
+
+def AttMeta.set (m : AttMeta) (r : Nat) (s : RcptState) : AttMeta :=
+  ⟨fun x => if x = r then s.tries else m.tries x, fun x => if x = r then s.stored else m.stored x⟩
+
+/-- The loop `for _, rcpt := range meta.To` of `tryDelivery`: `errs` = `partialErr.Errs`, the
+accumulators are `newRcpts` (retried) and `failedRcpts` (reported), both in envelope order.  Each
+recipient is handled by `attemptStep` on ITS entry of the maps and ITS error. -/
+def attemptLoop (maxTries : Nat) (errs : Nat → Option Err) :
+    List Nat → AttMeta → List Nat → List Nat → AttMeta × List Nat × List Nat
+  | [], m, new, failed => (m, new, failed)
+  | r :: rest, m, new, failed =>
+    match errs r with
+    | none => attemptLoop maxTries errs rest m new failed
+    | some e =>
+      match attemptStep maxTries (m.get r) (some e) with
+      | (s', .retry) => attemptLoop maxTries errs rest (m.set r s') (new ++ [r]) failed
+      | (s', _) => attemptLoop maxTries errs rest (m.set r s') new (failed ++ [r])
+
+/-- what is seen of one recipient after one attempt of the message -/
+structure RcptObs where
+  rcpt  : Nat
+  dec   : Decision
+  state : RcptState
+  report : Option ReportLine
+deriving DecidableEq, Repr, Inhabited
+
+/-- One attempt of the message: the loop, then `emitDSN` for `failedRcpts` (ONE report for all of
+them: all lines or none, `reportLines`).  Result: the observations in envelope order, the
+recipients that stay, the maps. -/
+def attemptAll (maxTries : Nat) (utf8 : Bool) (errs : Nat → Option Err) (to : List Nat) (m : AttMeta) :
+    List RcptObs × List Nat × AttMeta :=
+  let (m', new, failed) := attemptLoop maxTries errs to m [] []
+  let lines := reportLines utf8 (failed.filterMap m'.stored)
+  let lineOf (r : Nat) : Option ReportLine :=
+    match lines with
+    | none => none
+    | some _ => (m'.stored r).bind (reportLine utf8)
+  let obs := to.map fun r =>
+    if new.contains r then (⟨r, .retry, m'.get r, none⟩ : RcptObs)
+    else if failed.contains r then ⟨r, .giveUp, m'.get r, lineOf r⟩
+    else ⟨r, .delivered, m'.get r, none⟩
+  (obs, new, m')
+
+/-- The attempts of a message with several recipients: `plans r` = the outcomes the target has for
+recipient `r`, by attempt of the message (beyond the plan: accepted).  `fuel` bounds the number of
+attempts played. -/
+def runMulti (maxTries : Nat) (utf8 : Bool) (plans : Nat → List (Option Err)) :
+    Nat → Nat → List Nat → AttMeta → List (List RcptObs)
+  | 0, _, _, _ => []
+  | _, _, [], _ => []
+  | fuel + 1, k, to, m =>
+    let errs := fun r => ((plans r)[k]?).getD none
+    let (obs, new, m') := attemptAll maxTries utf8 errs to m
+    obs :: runMulti maxTries utf8 plans fuel (k + 1) new m'
 
 end MaddyVerif.Errors
